@@ -30,10 +30,12 @@ from ..core import pool_map
 MODULE = "codec/Serialize.tla"
 DEVS = ["Float32EncodedAsInt", "NarrowScalarRaises", "ArrayDtypeLost", "EmptyArrayShapeLost",
         "RatioZeroUpdatesRaises", "ChoiceAccumOrderLost", "CurrentRepNotSerialized"]
-HYPS = ["SetAsList", "MarksDropped", "IndexDropped", "ParentDropped", "NumUpdatesDropped", "FileNameRounds"]
+HYPS = ["SetAsList", "MarksDropped", "IndexDropped", "ParentDropped", "NumUpdatesDropped", "FileNameRounds",
+        "ZeroUpdatesSkipsState", "StaleNameCache"]
 LAWS = ["TypeOK", "EncodeTotal", "DecodeTotal", "RoundTripEq", "RoundTripFaithful", "DoubleRoundTrip",
-        "MarksPreserved", "ChildLaw", "StatsLaw", "FileNameInjective", "FileNameFunctional", "FinePoolOk"]
-FAMILIES = ["value", "params", "result", "results", "fields", "fname"]
+        "MarksPreserved", "ChildLaw", "StatsLaw", "FileNameInjective", "FileNameFunctional", "FinePoolOk",
+        "SaveNameIsCurrent", "SavedFilesRoundTrip"]
+FAMILIES = ["value", "params", "result", "results", "fields", "savehist", "fname"]
 # flag -> (family in which TLC must find it, law that must be violated)
 DEV_EXPECT = {
     "Float32EncodedAsInt": ("value", "RoundTripEq"),
@@ -51,6 +53,8 @@ HYP_EXPECT = {
     "ParentDropped": ("params", "MarksPreserved"),
     "NumUpdatesDropped": ("result", "RoundTripFaithful"),
     "FileNameRounds": ("fname", "FileNameInjective"),
+    "ZeroUpdatesSkipsState": ("result", "RoundTripEq"),
+    "StaleNameCache": ("savehist", "SaveNameIsCurrent"),
 }
 WORKBASE = os.path.join(tlc.WORK, "c17-files")
 # ~30 short TLC processes: C1 compiler only (start-up dominates), few compiler threads
@@ -468,6 +472,9 @@ def build_result(R, keep=None):
     else:
         r = Result(R["name"], R["type"], accumulate_values=R["acc"])
     for u in R["hist"]:
+        if u.get("op", "upd") == "merge":  # the merge of another result, itself given by its history
+            r.merge(build_result(u["rd"][0], keep))
+            continue
         v = to_py(u["v"])
         if keep is not None and isinstance(v, (list, set, np.ndarray)):
             keep.append((v, u["v"]))
@@ -761,6 +768,72 @@ def run_fields_case(c, wd):
     return out
 
 
+def run_savehist_case(c, wd):
+    """A multi-step history on ONE SimulationResults object: after every step the directory must hold exactly the
+    files the model holds, each loading back as the object that was saved into it last; every save must return the
+    name the template has for the parameters as they are at that moment."""
+    from pyphysim.simulations.results import SimulationResults
+    out = []
+    c = subst_dir(c, wd)
+    S0 = c["S0"]
+    sr = SimulationResults()
+    sr.set_parameters(build_params(S0["params"]))
+    for grp in c["rd0"]:
+        for R in grp["rs"]:
+            sr.append_result(build_result(R))
+    sr.runned_reps = to_py(S0["runned"])
+    sr.current_rep = S0["current"]
+    snaps = {}  # file name -> deep copy of the object at the moment it was saved there
+    last = None
+    for k, (o, st, files) in enumerate(zip(c["ops"], c["steps"], c["files"]), 1):
+        what = f"step {k} ({o['op']})"
+        try:
+            if o["op"] == "save":
+                fn = sr.save_to_file(os.path.join(wd, st["template"]))
+                last = fn
+                snaps[os.path.basename(fn)] = copy.deepcopy(sr)
+                if os.path.basename(fn) != st["name"]:
+                    out.append(("fname", f"{what}: SaveNameIsCurrent: save_to_file({st['template']!r}) returned "
+                                         f"{os.path.basename(fn)!r}, the parameters now give {st['name']!r}"))
+            elif o["op"] == "add":
+                sr.params.add(o["name"], to_py(o["val"]))
+            elif o["op"] == "setitem":
+                sr.params[o["name"]] = to_py(o["val"])
+            elif o["op"] == "setparams":
+                sr.set_parameters(build_params(o["P"]))
+            elif o["op"] == "upd":
+                for name in sr.get_result_names():
+                    sr[name][-1].update(to_py(o["val"]))
+            elif o["op"] == "cur":
+                sr.current_rep = o["val"]["n"]
+            elif o["op"] == "reload":
+                sr = SimulationResults.load_from_file(last)
+        except Exception as ex:
+            out.append(("raise", f"{what}: raised {type(ex).__name__}: {ex}"))
+            return out
+        # DirectoryIsWhatWasSaved
+        there = sorted(os.listdir(wd))
+        want = sorted(f["name"] for f in files)
+        if there != want:
+            out.append(("fname", f"{what}: the directory holds {there}, the history saved {want}"))
+            return out
+        for f in files:
+            try:
+                l = SimulationResults.load_from_file(os.path.join(wd, f["name"]))
+            except Exception as ex:
+                out.append((dec_exc_sig(ex), f"{what}: loading {f['name']!r} raised {type(ex).__name__}: {ex}"))
+                continue
+            tmp = []
+            cmp_results_fields(l, f["S"], f"{what}: file {f['name']!r}", tmp, not f["json"])
+            snap = snaps.get(f["name"])
+            if snap is not None and not tmp:
+                eq_both(snap, l, f"{what}: file {f['name']!r} vs the object saved into it", tmp)
+            out.extend(tmp)
+        if out:
+            return out
+    return out
+
+
 def tagged_results(params_obj, i):
     """a SimulationResults whose content identifies variation i"""
     from pyphysim.simulations.results import Result, SimulationResults
@@ -845,7 +918,7 @@ def run_fine_case(c, wd):
     return out
 
 
-RUNNERS = {"fields": run_fields_case, "fine": run_fine_case, "value": run_params_case, "params": run_params_case, "result": run_result_case,
+RUNNERS = {"savehist": run_savehist_case, "fields": run_fields_case, "fine": run_fine_case, "value": run_params_case, "params": run_params_case, "result": run_result_case,
            "results": run_results_case, "fname": run_fname_case}
 
 # signature of a mismatch -> finding it may belong to (it must also be in the case's `rel` set,
@@ -913,8 +986,8 @@ def judge(ctx, c, mism):
 
 def parts_for(family, tier):
     if tier == "thorough":
-        return {"value": 8, "params": 4, "result": 4, "results": 12, "fields": 2, "fname": 2}[family]
-    return {"value": 2, "params": 1, "result": 2, "results": 3, "fields": 2, "fname": 1}[family]
+        return {"value": 8, "params": 4, "result": 4, "results": 12, "fields": 2, "savehist": 6, "fname": 2}[family]
+    return {"value": 2, "params": 1, "result": 2, "results": 3, "fields": 2, "savehist": 1, "fname": 1}[family]
 
 
 def run(ctx):
@@ -976,10 +1049,10 @@ def run(ctx):
         if len(set(ids)) != len(ids):
             raise tlc.TlcError("two different emitted cases share an identity")
         acts = {"value": "ValueCase", "params": "ParamsCase", "result": "ResultCase", "results": "ResultsCase",
-                "fields": "FieldsCase", "fname": "FileNameCase", "fine": "FineCase"}
+                "fields": "FieldsCase", "savehist": "SaveHistCase", "fname": "FileNameCase", "fine": "FineCase"}
         for c in cases:  # every emitted case is one firing of its action
             ctx.actions[acts[c["kind"]]] = ctx.actions.get(acts[c["kind"]], 0) + 1
-        ctx.require_actions(["ValueCase", "ParamsCase", "ResultCase", "ResultsCase", "FieldsCase", "FileNameCase", "FineCase"])
+        ctx.require_actions(["ValueCase", "ParamsCase", "ResultCase", "ResultsCase", "FieldsCase", "SaveHistCase", "FileNameCase", "FineCase"])
         for flag, law, r in druns:
             if r.violated != law:
                 raise tlc.TlcError(f"flag {flag}: TLC was expected to refute {law}, it reported {r.violated}")
